@@ -111,7 +111,7 @@ def run_case(case):
     marks = {}
     for after, a, price in case.get('marks', []):
         marks.setdefault(after, []).append((a, price))
-    names = ['EQ:A', 'EQ:AB', 'EQ:B']
+    names = ['EQ:A', 'EQ:AB', 'EQ:Brk.b']
     nt = False
     sides = set()
     cls = set()
